@@ -1,6 +1,6 @@
 """unit codec: codec/rle.rs + core/event.rs BitmapEvent::decompress.  Properties C08 (total, exact size), C09 (pixel exact)."""
 from vx.spec import *
-from specs.rle16_safe import RLE16, RLE16_CONTRACT  # stable safety proof; specs/rle16_fn.py is the functional proof under construction (unit codec16)
+from specs.rle16_fn import RLE16, RLE16_SPECS  # body verified in unit codec16 (functional proof); here: Stub with the full contract.  specs/rle16_safe.py = the older safety-only proof, unused
 
 RLE = "src/codec/rle.rs"
 EVT = "src/core/event.rs"
@@ -413,6 +413,34 @@ proof { assert(ls.skip(0) =~= ls);
 }""", "before"),
 ]
 
+rle16_compose = Raw(r"""
+// ----- BitmapEvent::decompress, 16 bpp compressed: interleaved RLE decode composed with the 5-6-5 widening
+/// byte b (0 = blue .. 3 = alpha) of decoded pixel (rr, c) in the top-down 32 bpp result
+pub open spec fn rle16_byte(width: int, height: int, rr: int, c: int, b: int) -> int { rle16_idx(width, height, rr, c) * 4 + b }
+pub proof fn lemma_rle16_widened(dec: Seq<u16>, w: int, h: int, px: Seq<u16>, out: Seq<u8>)
+    requires rle16_exact(dec, w, h, px), dec.len() <= w * h, 0 <= w, 0 <= h, out.len() == w * h * 4, w * h <= px.len(),
+        forall|k: int| 0 <= k < w * h * 4 ==> #[trigger] out[k] == widen565(px[k / 4])[k % 4],
+    ensures forall|rr: int, c: int, b: int| 0 <= rr && 0 <= c < w && 0 <= b < 4 && rr * w + c < dec.len() ==>
+        0 <= #[trigger] rle16_byte(w, h, rr, c, b) < out.len() && out[rle16_byte(w, h, rr, c, b)] == widen565(dec[rr * w + c])[b],
+{
+    reveal(rle16_exact);
+    assert forall|rr: int, c: int, b: int| 0 <= rr && 0 <= c < w && 0 <= b < 4 && rr * w + c < dec.len() implies
+        0 <= #[trigger] rle16_byte(w, h, rr, c, b) < out.len() && out[rle16_byte(w, h, rr, c, b)] == widen565(dec[rr * w + c])[b] by {
+        let i = rle16_idx(w, h, rr, c);
+        assert(px[i] == dec[rr * w + c]);
+        if rr >= h {
+            assert(rr * w >= h * w) by(nonlinear_arith) requires rr >= h, 0 <= w;
+            assert(h * w == w * h) by(nonlinear_arith);
+            assert(false);
+        }
+        lemma_rle16_idx_bound(w, h, rr, c);
+        let k = i * 4 + b;
+        assert(k / 4 == i && k % 4 == b);
+        assert(out[k] == widen565(px[k / 4])[k % 4]);
+    }
+}
+""", mod="rle", name="rle16_compose")
+
 PLANE_CALL = r"process_plane\(&mut input_cursor, width, height, &mut output\[\d\.\.\]\)"
 
 UNIT = Unit("codec", ["base.rs"], [
@@ -476,7 +504,9 @@ proof {
     lemma_four_planes(o0, o1, o2, o3, o4, pa, pr, pg, pb, w as int, h as int);
     assert(output@.take(n4) =~= img);
 }""")]),
-    RLE16,
+    RLE16_SPECS,
+    to_stub(RLE16, "codec16"),
+    rle16_compose,
     Fn(RLE, "rgb565torgb32", mod="rle", props=["C08", "C09"], ret="result",
        requires=["width * height <= input@.len()", "width * height * 4 <= usize::MAX"],
        ensures=[("C08", "len", "result@.len() == width * height * 4"),
@@ -498,8 +528,17 @@ proof {
                 ("C09", "raw32-top-down", "r is Ok && self.bpp == 32 && !self.is_compress ==> self.data@.len() == self.width as int * self.height as int * 4 && forall|k: int| 0 <= k < self.width as int * self.height as int * 4 ==> #[trigger] r->Ok_0@[k] == self.data@[flip32(k, self.width as int, self.height as int)]"),
                 ("C09", "planar32-exact", "r is Ok && self.bpp == 32 && self.is_compress && self.width > 0 && self.height > 0 ==> planar_image(self.data@, self.width as nat, self.height as nat) == Some(r->Ok_0@)"),
                 ("C09", "raw16-top-down-widened", "r is Ok && self.bpp == 16 && !self.is_compress ==> forall|k: int| 0 <= k < self.width as int * self.height as int * 4 ==> #[trigger] r->Ok_0@[k] == widen565(raw16(self.data@, self.width as int, self.height as int, k / 4))[k % 4]"),
+                ("C09", "rle16-widened", "r is Ok && self.bpp == 16 && self.is_compress && !rle16_excluded(self.data@, self.width as nat, 0) ==> rle16_decode(self.data@, self.width as nat) is Some "
+                 "&& forall|rr: int, c: int, b: int| 0 <= rr && 0 <= c < self.width && 0 <= b < 4 && rr * self.width + c < rle16_decode(self.data@, self.width as nat)->Some_0.len() ==> "
+                 "0 <= #[trigger] rle16_byte(self.width as int, self.height as int, rr, c, b) < r->Ok_0@.len() "
+                 "&& r->Ok_0@[rle16_byte(self.width as int, self.height as int, rr, c, b)] == widen565(rle16_decode(self.data@, self.width as nat)->Some_0[rr * self.width + c])[b]"),
                 ("C08", "unsupported-depth", "self.bpp != 16 && self.bpp != 32 ==> r is Err")],
-       pre="proof { lemma_u16_dims(self.width as int, self.height as int); lemma_line(self.width as int, self.height as int); } let ghost w = self.width as int; let ghost h = self.height as int;",
+       pre="proof { lemma_u16_dims(self.width as int, self.height as int); lemma_line(self.width as int, self.height as int); } let ghost w = self.width as int; let ghost h = self.height as int; let ghost mut g16: Seq<u16> = Seq::empty();",
+       post="""proof {
+    if r is Ok && self.bpp == 16 && self.is_compress && !rle16_excluded(self.data@, self.width as nat, 0) {
+        lemma_rle16_widened(rle16_decode(self.data@, self.width as nat)->Some_0, w, h, g16, r->Ok_0@);
+    }
+}""",
        loops={1: """invariant result@.len() == size, size == w * h * 4, line == w * 4, self.data@.len() == size, w == self.width as int, h == self.height as int, h * (w * 4) == w * h * 4,
                      forall|k: int| 0 <= k < i * line ==> #[trigger] result@[k] == self.data@[flip32(k, w, h)]""",
               2: """invariant result@.len() == size, size == w * h * 4, line == w * 4, self.data@.len() == size, w == self.width as int, h == self.height as int, h * (w * 4) == w * h * 4,
@@ -519,6 +558,16 @@ proof {
               (r"let src = \(\(height - i - 1\) \* width \+ j\) \* 2;", 1, "proof { lemma_divmod(i as int, w, j as int); }", "before"),
               (r"result\[i \* width \+ j\] = [^\n]*\n\s*\}", 1, "proof { lemma_rowstart(i as int, w, h); }"),
               (r"Ok\(result\)", 1, "proof { assert(result@.take(size as int) =~= result@); }", "before"),
-              (r"Ok\(rgb565torgb32\(", 1, "proof { lemma_line(w, h); }", "before"),
-              ]),
+              (r"Ok\(rgb565torgb32\(", 1, "proof { lemma_line(w, h); g16 = result_16bpp@; }", "before"),
+              ],
+       # C09: the decoders are called with (data, width, height) in their proper roles: the callee's functional postcondition restated over self.width /
+       # self.height right after the call (swapped or otherwise wrong arguments fail these)
+       claims=[(r"rle_16_decompress\([^\n]*\)\?;", 1,
+                "proof { assert(!rle16_excluded(self.data@, self.width as nat, 0) ==> rle16_decode(self.data@, self.width as nat) is Some "
+                "&& rle16_exact(rle16_decode(self.data@, self.width as nat)->Some_0, self.width as int, self.height as int, result@)); }",
+                "after", "C09", "rle16-call-roles"),
+               (r"rle_32_decompress\([^\n]*\)\?;", 1,
+                "proof { assert(self.width > 0 && self.height > 0 ==> planar_image(self.data@, self.width as nat, self.height as nat) is Some "
+                "&& result@.take(self.width as int * self.height as int * 4) == planar_image(self.data@, self.width as nat, self.height as nat)->Some_0); }",
+                "after", "C09", "planar-call-roles")]),
 ], uses={"event": ["use super::rle::*;"]})
